@@ -463,10 +463,25 @@ GROUPS = {
                                 ext_functions={"BaseExceptionGroup": (271, ["@1"])},
                                 expr_externals={"gather(*[disposable.__aexit__(exc_type, exc_val, exc_tb) for disposable in "
                                                 "self._disposables], return_exceptions=True)": (270, [])}),
+            # the rollback of a failed / interrupted enter: the same handling of the gathered results (`raise … from exception`: the
+            # cause is not part of the interpreter's exceptions – C08's monitor checks reachability of the errors dynamically)
+            "gDispose": Target("src/haiway/context/disposables.py", "Disposables", "_dispose", ["disposables", "exception"], {},
+                               ext_functions={"BaseExceptionGroup": (271, ["@1"])},
+                               expr_externals={"gather(*[disposable.__aexit__(type(exception), exception, exception.__traceback__) "
+                                               "for disposable in disposables], return_exceptions=True)": (270, [])}),
         },
         "obligations": [
             ("exit_errors_surface", ["gDispExit"], "ExitSurfaces gDispExit",
              "intro excType excVal excTb w hg\n  unfold gDispExit\n"
+             "  cases h : excsExcept w.results excVal with\n"
+             "  | nil => dispexit_eval\n"
+             "  | cons e rest =>\n"
+             "    obtain ⟨c, n, rfl⟩ := head_is_exc h\n"
+             "    cases rest with\n"
+             "    | nil => dispexit_eval\n"
+             "    | cons e2 rest2 => dispexit_eval"),
+            ("rollback_errors_surface", ["gDispose"], "ExitSurfaces gDispose",
+             "intro excType excVal excTb w hg\n  unfold gDispose\n"
              "  cases h : excsExcept w.results excVal with\n"
              "  | nil => dispexit_eval\n"
              "  | cons e rest =>\n"
